@@ -16,8 +16,8 @@ import (
 
 	"github.com/zenon-network/go-zenon/chain"
 	"github.com/zenon-network/go-zenon/chain/genesis"
-	"github.com/zenon-network/go-zenon/chain/nom"
 	g "github.com/zenon-network/go-zenon/chain/genesis/mock"
+	"github.com/zenon-network/go-zenon/chain/nom"
 	"github.com/zenon-network/go-zenon/common/db"
 	"github.com/zenon-network/go-zenon/common/types"
 	"github.com/zenon-network/go-zenon/vm/embedded/definition"
@@ -73,12 +73,12 @@ func randAddr(c *Ctx, first byte) types.Address {
 	a[0] = first
 	return a
 }
-func randHash(c *Ctx) types.Hash {
+func gnRandHash(c *Ctx) types.Hash {
 	var h types.Hash
 	c.R.Read(h[:])
 	return h
 }
-func randAmount(c *Ctx) *big.Int {
+func gnRandAmount(c *Ctx) *big.Int {
 	switch c.R.Intn(6) {
 	case 0:
 		return big.NewInt(0)
@@ -95,7 +95,7 @@ func randAmount(c *Ctx) *big.Int {
 
 // genConfig builds a random CONSISTENT configuration: every list entry has its own storage key, token supplies are
 // the sums of the balances given, the pillar / plasma contracts hold exactly the stakes / fusions.
-func genConfig(c *Ctx) *genesis.GenesisConfig {
+func gnGenConfig(c *Ctx) *genesis.GenesisConfig {
 	cfg := cloneCfg(g.EmbeddedGenesis)
 	cfg.ChainIdentifier = uint64(1 + c.R.Intn(1000))
 	cfg.ExtraData = fmt.Sprintf("zv-genesis-%d", c.R.Int63())
@@ -119,11 +119,11 @@ func genConfig(c *Ctx) *genesis.GenesisConfig {
 	stake := big.NewInt(0)
 	for i, n := 0, 1+c.R.Intn(5); i < n; i++ {
 		a := randAddr(c, 0)
-		amt := randAmount(c)
-		stake.Add(stake, amt)
+		gnAmt := gnRandAmount(c)
+		stake.Add(stake, gnAmt)
 		cfg.PillarConfig.Pillars = append(cfg.PillarConfig.Pillars, &definition.PillarInfo{
 			Name: fmt.Sprintf("zv-pillar-%d-%d", i, c.R.Intn(1000)), BlockProducingAddress: a, StakeAddress: users[c.R.Intn(nUsers)],
-			RewardWithdrawAddress: a, Amount: amt, RegistrationTime: cfg.GenesisTimestampSec, GiveBlockRewardPercentage: uint8(c.R.Intn(101)),
+			RewardWithdrawAddress: a, Amount: gnAmt, RegistrationTime: cfg.GenesisTimestampSec, GiveBlockRewardPercentage: uint8(c.R.Intn(101)),
 			GiveDelegateRewardPercentage: uint8(c.R.Intn(101)), PillarType: uint8(c.R.Intn(2)),
 		})
 	}
@@ -136,21 +136,21 @@ func genConfig(c *Ctx) *genesis.GenesisConfig {
 	}
 	cfg.PillarConfig.LegacyEntries = nil
 	for i := c.R.Intn(4); i > 0; i-- {
-		cfg.PillarConfig.LegacyEntries = append(cfg.PillarConfig.LegacyEntries, &definition.LegacyPillarEntry{KeyIdHash: randHash(c), PillarCount: uint8(c.R.Intn(5))})
+		cfg.PillarConfig.LegacyEntries = append(cfg.PillarConfig.LegacyEntries, &definition.LegacyPillarEntry{KeyIdHash: gnRandHash(c), PillarCount: uint8(c.R.Intn(5))})
 	}
 	// fusions (distinct (owner, id) keys)
 	cfg.PlasmaConfig.Fusions = nil
 	fused := big.NewInt(0)
 	for i := c.R.Intn(8); i > 0; i-- {
-		amt := randAmount(c)
-		fused.Add(fused, amt)
+		gnAmt := gnRandAmount(c)
+		fused.Add(fused, gnAmt)
 		cfg.PlasmaConfig.Fusions = append(cfg.PlasmaConfig.Fusions, &definition.FusionInfo{
-			Owner: users[c.R.Intn(nUsers)], Id: randHash(c), Amount: amt, ExpirationHeight: uint64(c.R.Intn(100)), Beneficiary: users[c.R.Intn(nUsers)]})
+			Owner: users[c.R.Intn(nUsers)], Id: gnRandHash(c), Amount: gnAmt, ExpirationHeight: uint64(c.R.Intn(100)), Beneficiary: users[c.R.Intn(nUsers)]})
 	}
 	// swap entries
 	cfg.SwapConfig.Entries = nil
 	for i := c.R.Intn(5); i > 0; i-- {
-		cfg.SwapConfig.Entries = append(cfg.SwapConfig.Entries, &definition.SwapAssets{KeyIdHash: randHash(c), Znn: randAmount(c), Qsr: randAmount(c)})
+		cfg.SwapConfig.Entries = append(cfg.SwapConfig.Entries, &definition.SwapAssets{KeyIdHash: gnRandHash(c), Znn: gnRandAmount(c), Qsr: gnRandAmount(c)})
 	}
 	// sporks: nil config, or not-yet-active / implemented ones (chain.Init calls os.Exit(2) on an active unknown spork)
 	cfg.SporkConfig = nil
@@ -159,7 +159,7 @@ func genConfig(c *Ctx) *genesis.GenesisConfig {
 		impl := []types.Hash{types.AcceleratorSpork.SporkId, types.HtlcSpork.SporkId, types.BridgeAndLiquiditySpork.SporkId}
 		c.R.Shuffle(len(impl), func(a, b int) { impl[a], impl[b] = impl[b], impl[a] })
 		for i, n := 0, c.R.Intn(4); i < n; i++ {
-			sp := &definition.Spork{Id: randHash(c), Name: fmt.Sprintf("spork-%d", i), Description: "zv", Activated: false, EnforcementHeight: 0}
+			sp := &definition.Spork{Id: gnRandHash(c), Name: fmt.Sprintf("spork-%d", i), Description: "zv", Activated: false, EnforcementHeight: 0}
 			if i < len(impl) && c.R.Intn(2) == 0 {
 				sp.Id, sp.Activated, sp.EnforcementHeight = impl[i], true, uint64(c.R.Intn(3))
 			}
@@ -190,13 +190,13 @@ func genConfig(c *Ctx) *genesis.GenesisConfig {
 		add(types.TokenContract, map[types.ZenonTokenStandard]*big.Int{})
 	}
 	if c.R.Intn(3) == 0 {
-		add(types.StakeContract, map[types.ZenonTokenStandard]*big.Int{zts[c.R.Intn(len(zts))]: randAmount(c)})
+		add(types.StakeContract, map[types.ZenonTokenStandard]*big.Int{zts[c.R.Intn(len(zts))]: gnRandAmount(c)})
 	}
 	for _, u := range users {
 		bl := map[types.ZenonTokenStandard]*big.Int{}
 		for _, z := range zts {
 			if c.R.Intn(3) != 0 {
-				bl[z] = randAmount(c)
+				bl[z] = gnRandAmount(c)
 			}
 		}
 		add(u, bl)
@@ -210,14 +210,14 @@ func genConfig(c *Ctx) *genesis.GenesisConfig {
 			}
 		}
 		if !found {
-			v := randAmount(c)
+			v := gnRandAmount(c)
 			cfg.GenesisBlocks.Blocks[len(cfg.GenesisBlocks.Blocks)-1].BalanceList[z] = v
 			total[z].Add(total[z], v)
 		}
 	}
 	cfg.TokenConfig.Tokens = nil
 	for i, z := range zts {
-		max := new(big.Int).Add(total[z], randAmount(c))
+		max := new(big.Int).Add(total[z], gnRandAmount(c))
 		cfg.TokenConfig.Tokens = append(cfg.TokenConfig.Tokens, &definition.TokenInfo{
 			Owner: users[c.R.Intn(nUsers)], TokenName: fmt.Sprintf("Token%d", i), TokenSymbol: fmt.Sprintf("TK%d", i), TokenDomain: "zv.example",
 			TotalSupply: new(big.Int).Set(total[z]), MaxSupply: max, Decimals: uint8(c.R.Intn(19)), IsMintable: c.R.Intn(2) == 0, IsBurnable: c.R.Intn(2) == 0,
@@ -251,7 +251,7 @@ func permuteCfg(c *Ctx, in *genesis.GenesisConfig) *genesis.GenesisConfig {
 
 // ---- line encoding of the part of a configuration CheckGenesis looks at ---------------------------------
 
-func amt(v *big.Int) string {
+func gnAmt(v *big.Int) string {
 	if v == nil {
 		return "nil"
 	}
@@ -278,7 +278,7 @@ func encodeCfg(cfg *genesis.GenesisConfig) string {
 			sort.Slice(ks, func(i, j int) bool { return bytes.Compare(ks[i][:], ks[j][:]) < 0 })
 			fmt.Fprintf(&sb, " %s %d", hx(b.Address.Bytes()), len(ks))
 			for _, z := range ks {
-				fmt.Fprintf(&sb, " %s %s", hx(z[:]), amt(b.BalanceList[z]))
+				fmt.Fprintf(&sb, " %s %s", hx(z[:]), gnAmt(b.BalanceList[z]))
 			}
 		}
 	} else {
@@ -287,7 +287,7 @@ func encodeCfg(cfg *genesis.GenesisConfig) string {
 	if cfg.TokenConfig != nil {
 		fmt.Fprintf(&sb, " T %d", len(cfg.TokenConfig.Tokens))
 		for _, t := range cfg.TokenConfig.Tokens {
-			fmt.Fprintf(&sb, " %s %s %s", hx(t.TokenStandard[:]), amt(t.TotalSupply), amt(t.MaxSupply))
+			fmt.Fprintf(&sb, " %s %s %s", hx(t.TokenStandard[:]), gnAmt(t.TotalSupply), gnAmt(t.MaxSupply))
 		}
 	} else {
 		sb.WriteString(" T 0")
@@ -295,7 +295,7 @@ func encodeCfg(cfg *genesis.GenesisConfig) string {
 	if cfg.PillarConfig != nil {
 		fmt.Fprintf(&sb, " P %d", len(cfg.PillarConfig.Pillars))
 		for _, p := range cfg.PillarConfig.Pillars {
-			fmt.Fprintf(&sb, " %s", amt(p.Amount))
+			fmt.Fprintf(&sb, " %s", gnAmt(p.Amount))
 		}
 	} else {
 		sb.WriteString(" P 0")
@@ -306,7 +306,7 @@ func encodeCfg(cfg *genesis.GenesisConfig) string {
 			if f == nil {
 				sb.WriteString(" nilentry")
 			} else {
-				fmt.Fprintf(&sb, " %s", amt(f.Amount))
+				fmt.Fprintf(&sb, " %s", gnAmt(f.Amount))
 			}
 		}
 	} else {
@@ -315,7 +315,7 @@ func encodeCfg(cfg *genesis.GenesisConfig) string {
 	if cfg.SwapConfig != nil {
 		fmt.Fprintf(&sb, " S %d", len(cfg.SwapConfig.Entries))
 		for _, s := range cfg.SwapConfig.Entries {
-			fmt.Fprintf(&sb, " %s %s", amt(s.Znn), amt(s.Qsr))
+			fmt.Fprintf(&sb, " %s %s", gnAmt(s.Znn), gnAmt(s.Qsr))
 		}
 	} else {
 		sb.WriteString(" S 0")
@@ -523,7 +523,7 @@ var perturbations = []perturbation{
 		return true
 	}},
 	{"add-fusion", true, func(c *Ctx, cfg *genesis.GenesisConfig) bool {
-		cfg.PlasmaConfig.Fusions = append(cfg.PlasmaConfig.Fusions, &definition.FusionInfo{Owner: randAddr(c, 0), Id: randHash(c), Amount: big.NewInt(1 + int64(c.R.Intn(1000))), Beneficiary: randAddr(c, 0)})
+		cfg.PlasmaConfig.Fusions = append(cfg.PlasmaConfig.Fusions, &definition.FusionInfo{Owner: randAddr(c, 0), Id: gnRandHash(c), Amount: big.NewInt(1 + int64(c.R.Intn(1000))), Beneficiary: randAddr(c, 0)})
 		return true
 	}},
 	{"drop-fusion", true, func(c *Ctx, cfg *genesis.GenesisConfig) bool {
@@ -597,7 +597,7 @@ var perturbations = []perturbation{
 		return true
 	}},
 	{"nil-swap-amount", true, func(c *Ctx, cfg *genesis.GenesisConfig) bool {
-		e := &definition.SwapAssets{KeyIdHash: randHash(c), Znn: big.NewInt(1), Qsr: big.NewInt(1)}
+		e := &definition.SwapAssets{KeyIdHash: gnRandHash(c), Znn: big.NewInt(1), Qsr: big.NewInt(1)}
 		if c.R.Intn(2) == 0 {
 			e.Znn = nil
 		} else {
@@ -944,7 +944,7 @@ func randHeaders(c *Ctx) []types.AccountHeader {
 		default:
 			h.Height = c.R.Uint64()
 		}
-		h.Hash = randHash(c)
+		h.Hash = gnRandHash(c)
 		if c.R.Intn(3) == 0 {
 			h.Hash = types.Hash{byte(c.R.Intn(2))}
 		}
@@ -999,7 +999,7 @@ func init() {
 		}
 		var prev *genesis.GenesisConfig
 		for k := 0; k < nCfg; k++ {
-			cfg := genConfig(c)
+			cfg := gnGenConfig(c)
 			id := fmt.Sprintf("cfg%d", k)
 			// 1. the generated configuration is accepted by the real validators and by the model
 			v := checkReal(cfg)
